@@ -156,6 +156,13 @@ def fresh_receiver(fn: ast.FunctionDef, call: ast.Call, classes: Set[str]) -> Tu
         return False, f"the load into `{root_txt}` was not reached by the statement walk"
     if any(v is None for v in at_call):
         return False, f"`{root_txt}` is not created in this call on some path: bindings are loaded into an object that outlives the call"
+    # a clone of the very object the previous call left in the same slot (`self.x = self.x.clone()`) is a new object
+    # with the old call's bindings in it
+    selfcopy = [v for v in at_call if isinstance(strip_cast(v), ast.Call) and isinstance(strip_cast(v).func, ast.Attribute)
+                and dotted(strip_cast(v).func.value) == root_txt and root_txt.startswith("self.")]
+    if selfcopy:
+        return False, (f"`{root_txt}` is re-created as `{ast.unparse(selfcopy[0])[:50]}`: a copy of what the previous call left in the same slot, bindings of earlier "
+                       "evaluations included - a name the new call does not bind keeps its old value")
     stale = [v for v in at_call if not is_fresh(v, classes)]
     if stale:
         return False, f"`{root_txt}` may be `{ast.unparse(stale[0])[:60]}` (not a fresh clone) when bindings are loaded into it"
